@@ -171,14 +171,14 @@ class Pressure(Job):
 
 
 def jobs(tier):
-    N = 4 if tier == "quick" else 6
+    N = 4 if tier == "quick" else 7
     out = []
     for n in range(0, N + 1):
         for has_s, has_f in ((True, True), (True, False), (False, True), (False, False)):
             if n > 3 and not (has_s and has_f):
                 continue
             out.append(Density(n, has_s, has_f))
-    for n in range(2, (4 if tier == "quick" else 5) + 1):
+    for n in range(2, (4 if tier == "quick" else 6) + 1):
         out.append(DensityMirror(n))
     for n in range(0, N + 2):
         out.append(Pressure(n))
@@ -196,8 +196,8 @@ ASSUMPTIONS = ["numpy.ma environment model validated per path against numpy 1.26
 
 
 def bounds(tier):
-    return {"profile_length": "0..4" if tier == "quick" else "0..6", "thresholds": "each present/absent, any real value",
-            "missing": "independent NaN flags on density and depth", "mirror_law_length": "2..4" if tier == "quick" else "2..5"}
+    return {"profile_length": "0..4" if tier == "quick" else "0..7", "thresholds": "each present/absent, any real value",
+            "missing": "independent NaN flags on density and depth", "mirror_law_length": "2..4" if tier == "quick" else "2..6"}
 
 
 LEVEL_TEXT = ("bounded symbolic model checking of the real density_inversion_test / pressure_increasing_test source; the mirror "
